@@ -639,4 +639,195 @@ theorem uniqueProg_list (eq : ρ → ρ → Bool) (xs : List ρ) :
       simpa [Nat.add_comm] using h1
     · simpa [uniq, Nat.add_comm] using h3
 
+/-! ### sort (insertion sort: at most 16 elements) -/
+
+theorem Prog.runList_andThen (p k : Prog ρ) (xs : List ρ) :
+    (p.andThen k).runList xs = (p.runList xs).bind fun r => k.runList r.1 := by
+  induction p generalizing xs with
+  | ret pos => simp [Prog.andThen, Prog.runList]
+  | read i f ih =>
+    simp only [Prog.andThen, Prog.runList]
+    cases Prog.nth xs i with
+    | none => simp
+    | some x => simp [ih]
+  | write i x p ih =>
+    simp only [Prog.andThen, Prog.runList]
+    cases Prog.nth xs i with
+    | none => simp
+    | some x => simp [ih]
+  | assign i j p ih =>
+    simp only [Prog.andThen, Prog.runList]
+    cases Prog.nth xs i <;> cases Prog.nth xs j <;> simp [ih]
+  | swap i j p ih =>
+    simp only [Prog.andThen, Prog.runList]
+    cases Prog.nth xs i <;> cases Prog.nth xs j <;> simp [ih]
+
+/-- `__unguarded_linear_insert` at hole position `|A|`: `A` starts with an element not above `val` (the guard), everything in
+    `G` is above `val`; `val` ends up behind the last element of `A` that is not above it -/
+theorem linInsert_aux (lt : ρ → ρ → Bool) (val : ρ) (k : Prog ρ) (n : Nat) :
+    ∀ (A : List ρ) (h : ρ) (G R : List ρ) (a0 : ρ) (A' : List ρ), A.length = n → A = a0 :: A' → lt val a0 = false →
+      ∃ A1 A2, A = A1 ++ A2 ∧ A1 ≠ [] ∧ (∀ y ∈ A2, lt val y = true) ∧ (∀ y, A1.getLast? = some y → lt val y = false) ∧
+        (linInsert lt val k A.length ((A.length : Nat) : Int)).runList (A ++ h :: G ++ R)
+          = k.runList (A1 ++ val :: A2 ++ G ++ R) := by
+  induction n with
+  | zero => intro A h G R a0 A' hn hA; subst hA; simp at hn
+  | succ n ih =>
+    intro A h G R a0 A' hn hA ha0
+    rcases List.eq_nil_or_concat A with rfl | ⟨B, y, rfl⟩
+    · simp at hn
+    rw [List.concat_eq_append] at hn hA ⊢
+    have hB : B.length = n := by simpa using hn
+    have hy : (B ++ [y] ++ h :: G ++ R)[B.length]? = some y := by simp
+    have c : (((B ++ [y]).length : Nat) : Int) - 1 = ((B.length : Nat) : Int) := by simp
+    have hl : (B ++ [y]).length = B.length + 1 := by simp
+    rw [hl, linInsert, ← hl, c, Prog.runList_read _ hy]
+    by_cases hlt : lt val y = true
+    · simp only [hlt, if_true]
+      have hj : (B ++ [y]).length < (B ++ [y] ++ h :: G ++ R).length := by simp
+      rw [Prog.runList_assign _ hj hy]
+      -- B is non-empty: its head is a0
+      cases B with
+      | nil => simp at hA; rw [← hA.1, hlt] at ha0; exact absurd ha0 (by simp)
+      | cons b0 B' =>
+        have hb0 : b0 = a0 := by simp at hA; exact hA.1
+        obtain ⟨A1, A2, e, hne, h2, h3, hrun⟩ := ih (b0 :: B') y (y :: G) R b0 B' hB rfl (hb0 ▸ ha0)
+        refine ⟨A1, A2 ++ [y], by rw [← List.append_assoc, ← e], hne, ?_, h3, ?_⟩
+        · intro z hz; rcases List.mem_append.1 hz with hz | hz
+          · exact h2 z hz
+          · simp at hz; subst hz; exact hlt
+        · have e2 : ((b0 :: B') ++ [y] ++ h :: G ++ R).set ((b0 :: B') ++ [y]).length y = (b0 :: B') ++ y :: (y :: G) ++ R := by
+            apply List.ext_getElem?
+            intro i
+            simp only [List.getElem?_set, List.getElem?_append, List.getElem?_cons, List.length_append, List.length_cons,
+              List.length_nil]
+            grind
+          rw [e2, hrun]; simp
+    · have hlt' : lt val y = false := by simpa using hlt
+      simp only [hlt', Bool.false_eq_true, if_false]
+      have hj : (B ++ [y]).length < (B ++ [y] ++ h :: G ++ R).length := by simp
+      rw [Prog.runList_write _ _ hj]
+      refine ⟨B ++ [y], [], by simp, by simp, by simp, ?_, ?_⟩
+      · intro z hz; simp at hz; subst hz; exact hlt'
+      · congr 1
+        apply List.ext_getElem?
+        intro i
+        simp only [List.getElem?_set, List.getElem?_append, List.getElem?_cons, List.length_append, List.length_cons,
+          List.length_nil]
+        grind
+
+theorem shift_right_set (S R ys : List ρ) (x : ρ) (hlen : ys.length = (S ++ x :: R).length)
+    (hcp : ∀ i, i < S.length → ys[i + 1]? = (S ++ x :: R)[i]?)
+    (hout : ∀ j, S.length + 1 ≤ j → ys[j]? = (S ++ x :: R)[j]?) :
+    ys.set 0 x = x :: S ++ R := by
+  apply List.ext_getElem?
+  intro i
+  cases i with
+  | zero =>
+    have : 0 < ys.length := by rw [hlen]; simp; omega
+    simp [this]
+  | succ j =>
+    rw [List.getElem?_set_ne (by omega)]
+    simp only [List.cons_append, List.getElem?_cons_succ]
+    rcases Nat.lt_or_ge j S.length with h | h
+    · rw [hcp j h, List.getElem?_append_left h, List.getElem?_append_left h]
+    · rw [hout (j + 1) (by omega), List.getElem?_append_right (by omega), List.getElem?_append_right h]
+      obtain ⟨m, rfl⟩ : ∃ m, j = S.length + m := ⟨j - S.length, by omega⟩
+      have : S.length + m + 1 - S.length = m + 1 := by omega
+      rw [this]; simp
+
+/-- inserting `x` between the part of a sorted list not above it and the part above it keeps the list sorted -/
+theorem pairwise_insert (lt : ρ → ρ → Bool) (hasym : ∀ a b, lt a b = true → lt b a = false)
+    (htr : ∀ a b c, lt b a = false → lt c b = false → lt c a = false) (A1 A2 : List ρ) (x : ρ)
+    (hs : (A1 ++ A2).Pairwise fun a b => lt b a = false) (h2 : ∀ y ∈ A2, lt x y = true)
+    (h3 : ∀ y, A1.getLast? = some y → lt x y = false) :
+    (A1 ++ x :: A2).Pairwise fun a b => lt b a = false := by
+  rw [List.pairwise_append] at hs ⊢
+  obtain ⟨p1, p2, p12⟩ := hs
+  refine ⟨p1, List.pairwise_cons.2 ⟨fun b hb => hasym _ _ (h2 b hb), p2⟩, ?_⟩
+  intro a ha b hb
+  rcases List.mem_cons.1 hb with rfl | hb
+  · rcases List.eq_nil_or_concat A1 with rfl | ⟨B, l, rfl⟩
+    · simp at ha
+    · rw [List.concat_eq_append] at ha p1 h3
+      have hl : lt b l = false := h3 l (by simp)
+      rcases List.mem_append.1 ha with ha | ha
+      · have : lt l a = false := (List.pairwise_append.1 p1).2.2 a ha l (by simp)
+        exact htr a l b this hl
+      · simp at ha; subst ha; exact hl
+  · exact p12 a ha b hb
+
+theorem insSortLoop_aux (lt : ρ → ρ → Bool) (hasym : ∀ a b, lt a b = true → lt b a = false)
+    (htr : ∀ a b c, lt b a = false → lt c b = false → lt c a = false) (R : List ρ) :
+    ∀ S : List ρ, S ≠ [] → (S.Pairwise fun a b => lt b a = false) →
+      ∃ ys, (insSortLoop lt R.length ((S.length : Nat) : Int)).runList (S ++ R) = some (ys, 0) ∧ ys.Perm (S ++ R) ∧
+        ys.Pairwise fun a b => lt b a = false := by
+  induction R with
+  | nil => intro S _ hs; exact ⟨S, by simp [insSortLoop, Prog.runList], by simp, hs⟩
+  | cons x R ih =>
+    intro S hne hs
+    cases S with
+    | nil => exact absurd rfl hne
+    | cons s0 S' =>
+    have hx : ((s0 :: S') ++ x :: R)[(s0 :: S').length]? = some x := by simp
+    have h0 : ((s0 :: S') ++ x :: R)[0]? = some s0 := by simp
+    have z : (0 : Int) = ((0 : Nat) : Int) := rfl
+    have hR : (x :: R).length = R.length + 1 := rfl
+    rw [hR, insSortLoop, Prog.runList_read _ hx, z, Prog.runList_read _ h0, natCast_succ', Int.toNat_natCast]
+    by_cases hlt : lt x s0 = true
+    · simp only [hlt, if_true]
+      obtain ⟨ys, hrun, hlen, hcp, hout⟩ := copyBackwardProg_list ((s0 :: S') ++ x :: R) (s0 :: S').length (s0 :: S').length
+        ((s0 :: S').length + 1) (Nat.le_refl _) (by simp) (by omega) (by simp) (Or.inl (by omega))
+      rw [Prog.runList_andThen, hrun]
+      simp only [Option.bind_some]
+      have hys0 : 0 < ys.length := by rw [hlen]; simp
+      rw [Prog.runList_write x _ hys0, ← z]
+      have e : ys.set 0 x = (x :: s0 :: S') ++ R := by
+        refine shift_right_set (s0 :: S') R ys x hlen ?_ ?_
+        · intro i hi
+          have := hcp i hi
+          rwa [Nat.add_sub_cancel_left, Nat.sub_self, Nat.zero_add, Nat.add_comm 1 i] at this
+        · intro j hj
+          exact hout j (Or.inr hj)
+      have hs' : (x :: s0 :: S').Pairwise fun a b => lt b a = false := by
+        refine List.pairwise_cons.2 ⟨?_, hs⟩
+        intro b hb
+        rcases List.mem_cons.1 hb with rfl | hb
+        · exact hasym _ _ hlt
+        · exact htr x s0 b (hasym _ _ hlt) ((List.pairwise_cons.1 hs).1 b hb)
+      obtain ⟨zs, h1, h2, h3⟩ := ih (x :: s0 :: S') (by simp) hs'
+      have c : (((s0 :: S').length + 1 : Nat) : Int) = (((x :: s0 :: S').length : Nat) : Int) := by simp
+      rw [e, c, h1]
+      exact ⟨zs, rfl, h2.trans (by simpa using (List.perm_middle (a := x) (l₁ := s0 :: S') (l₂ := R)).symm), h3⟩
+    · have hlt' : lt x s0 = false := by simpa using hlt
+      simp only [hlt', Bool.false_eq_true, if_false]
+      obtain ⟨A1, A2, e, hne1, h2, h3, hrun⟩ := linInsert_aux lt x (insSortLoop lt R.length (((s0 :: S').length + 1 : Nat) : Int))
+        (s0 :: S').length (s0 :: S') x [] R s0 S' rfl rfl hlt'
+      have eL : (s0 :: S') ++ x :: R = (s0 :: S') ++ x :: [] ++ R := by simp
+      rw [eL, hrun]
+      have hs' : (A1 ++ x :: A2).Pairwise fun a b => lt b a = false :=
+        pairwise_insert lt hasym htr A1 A2 x (e ▸ hs) h2 h3
+      obtain ⟨zs, h1, h2', h3'⟩ := ih (A1 ++ x :: A2) (by simp) hs'
+      have c : (((s0 :: S').length + 1 : Nat) : Int) = (((A1 ++ x :: A2).length : Nat) : Int) := by
+        rw [e]; simp; omega
+      have eL2 : A1 ++ x :: A2 ++ [] ++ R = (A1 ++ x :: A2) ++ R := by simp
+      rw [eL2, c, h1]
+      refine ⟨zs, rfl, h2'.trans ?_, h3'⟩
+      rw [e]
+      simp only [List.append_assoc, List.cons_append]
+      exact List.Perm.append_left _ List.perm_middle.symm
+
+/-- `std::sort` on at most 16 values (`__insertion_sort`), `lt` a strict weak order (asymmetric, `¬ lt` transitive): the result
+    is a sorted permutation of the input -/
+theorem insertionSortProg_list (lt : ρ → ρ → Bool) (hasym : ∀ a b, lt a b = true → lt b a = false)
+    (htr : ∀ a b c, lt b a = false → lt c b = false → lt c a = false) (xs : List ρ) :
+    ∃ ys, (insertionSortProg lt xs.length).runList xs = some (ys, 0) ∧ ys.Perm xs ∧
+      ys.Pairwise fun a b => lt b a = false := by
+  cases xs with
+  | nil => exact ⟨[], by simp [insertionSortProg, Prog.runList], by simp, by simp⟩
+  | cons a R =>
+    obtain ⟨ys, h1, h2, h3⟩ := insSortLoop_aux lt hasym htr R [a] (by simp) (by simp)
+    refine ⟨ys, ?_, by simpa using h2, h3⟩
+    simp only [insertionSortProg, List.length_cons, Nat.add_one_ne_zero, if_false, Nat.add_sub_cancel]
+    simpa using h1
+
 end Multi
